@@ -29,5 +29,46 @@ theorem rect_interp (x y w h rx0 ry0 : α) :
   · simp [rectCmds, hr, interp, interpFrom, stepSeg, initState, opened]
   · simp [rectCmds, hr, interp, interpFrom, stepSeg, initState, opened]
 
+theorem resolveRadii_lone (w h a : α) : resolveRadii w h a 0 = resolveRadii w h a a := by
+  unfold resolveRadii
+  by_cases ha : a = 0 <;> simp [ha]
+
+theorem resolveRadii_lone' (w h b : α) : resolveRadii w h 0 b = resolveRadii w h b b := by
+  unfold resolveRadii
+  by_cases hb : b = 0 <;> simp [hb]
+
+theorem rectOutline_lone (x y w h a : α) : rectOutline x y w h a 0 = rectOutline x y w h a a := by
+  simp only [rectOutline, resolveRadii_lone]
+
+theorem rectOutline_lone' (x y w h b : α) : rectOutline x y w h 0 b = rectOutline x y w h b b := by
+  simp only [rectOutline, resolveRadii_lone']
+
+/-- the radii `from_element` hands to the dataclass make `rectOutline` (0 = copy the other one) draw what SVG 1.1 §9.2
+    prescribes for the attributes as written (`rectOutlineAttr`: not given ≠ given as zero) -/
+theorem rect_from_attributes (x y w h : α) (rx? ry? : Option α) :
+    rectOutline x y w h (explicitZeroRadii rx?.isSome ry?.isSome (rx?.getD 0) (ry?.getD 0)).1
+        (explicitZeroRadii rx?.isSome ry?.isSome (rx?.getD 0) (ry?.getD 0)).2
+      = rectOutlineAttr x y w h rx? ry? := by
+  cases rx? with
+  | none =>
+    cases ry? with
+    | none => simp [explicitZeroRadii, rectOutlineAttr, givenRadii]
+    | some b =>
+      by_cases hb : b = 0
+      · simp [explicitZeroRadii, rectOutlineAttr, givenRadii, hb]
+      · simp [explicitZeroRadii, rectOutlineAttr, givenRadii, hb, rectOutline_lone']
+  | some a =>
+    cases ry? with
+    | none =>
+      by_cases ha : a = 0
+      · simp [explicitZeroRadii, rectOutlineAttr, givenRadii, ha]
+      · simp [explicitZeroRadii, rectOutlineAttr, givenRadii, ha, rectOutline_lone]
+    | some b =>
+      by_cases ha : a = 0
+      · simp [explicitZeroRadii, rectOutlineAttr, givenRadii, ha]
+      · by_cases hb : b = 0
+        · simp [explicitZeroRadii, rectOutlineAttr, givenRadii, hb]
+        · simp [explicitZeroRadii, rectOutlineAttr, givenRadii, ha, hb]
+
 end
 end PicoSVG.ShapeCmds
